@@ -115,6 +115,9 @@ def _r1(ctx):
                  % (attr, sorted({U(s[2]) for s in consts}), sorted({U(s[2]) for s in consts})))
         else:
             pair("LCD cell / LatencyLCD", False, fd.where(dv), "unrecognised dict expression %s" % U(dv), recognised=False)
+    # --- the LCD cell is shown for every member line (a latency of 0.0 is a value)
+    from .c05 import lcd_cell_presence
+    lcd_cell_presence(ctx, "R1")
     # --- the same cycle is selected on both sides (ties between equally long cycles are broken by the expression)
     def selection(fi):
         for n in ast.walk(fi.node):
@@ -312,6 +315,184 @@ def _r2(ctx):
               "add_semantics / KernelDG / report do not use the same kernel list", f.qname, "kernel identity")
 
 
+def _flag_pred(e, var):
+    """Predicate over the flags of one line, as the frozenset of satisfying assignments (frozensets of flag names), for
+    `F in <var>.flags`, `{A, B}.issubset(<var>.flags)`, `all/any(f in <var>.flags for f in (A, B))`, not / and / or.
+    `var` None: the flags container is any expression. Returns (atoms, function assignment -> bool) or None."""
+    def is_flags(x):
+        t = U(x)
+        return t.endswith(".flags") and (var is None or t == var + ".flags") or t in ("flags", "flag_obj", "set(%s.flags)" % var)
+
+    def flagname(x):
+        t = U(x)
+        return t if t.startswith("INSTR_FLAGS.") else None
+
+    def lits(x):
+        if isinstance(x, (ast.Set, ast.Tuple, ast.List)) and all(flagname(y) for y in x.elts):
+            return [flagname(y) for y in x.elts]
+        return None
+
+    def go(x):
+        if isinstance(x, ast.UnaryOp) and isinstance(x.op, ast.Not):
+            r = go(x.operand)
+            return None if r is None else (r[0], lambda a, f=r[1]: not f(a))
+        if isinstance(x, ast.BoolOp):
+            parts = [go(v) for v in x.values]
+            if any(p is None for p in parts):
+                return None
+            atoms = set().union(*[p[0] for p in parts])
+            fs = [p[1] for p in parts]
+            if isinstance(x.op, ast.And):
+                return atoms, lambda a: all(f(a) for f in fs)
+            return atoms, lambda a: any(f(a) for f in fs)
+        if isinstance(x, ast.Compare) and len(x.ops) == 1:
+            l, r, op = x.left, x.comparators[0], x.ops[0]
+            if isinstance(op, (ast.In, ast.NotIn)) and flagname(l) and is_flags(r):
+                n = flagname(l)
+                pos = isinstance(op, ast.In)
+                return {n}, (lambda a: (n in a) == pos)
+            if isinstance(op, ast.LtE) and lits(l) and (is_flags(r) or (isinstance(r, ast.Call) and r.args and is_flags(r.args[0]))):
+                ns = lits(l)
+                return set(ns), lambda a: all(n in a for n in ns)
+        if isinstance(x, ast.Call) and isinstance(x.func, ast.Attribute) and x.func.attr in ("issubset", "isdisjoint") and lits(x.func.value) \
+                and len(x.args) == 1 and is_flags(x.args[0]):
+            ns = lits(x.func.value)
+            if x.func.attr == "issubset":
+                return set(ns), lambda a: all(n in a for n in ns)
+            return set(ns), lambda a: not any(n in a for n in ns)
+        if isinstance(x, ast.Call) and isinstance(x.func, ast.Name) and x.func.id in ("all", "any") and len(x.args) == 1 \
+                and isinstance(x.args[0], (ast.GeneratorExp, ast.ListComp)) and len(x.args[0].generators) == 1:
+            g = x.args[0].generators[0]
+            ns = lits(g.iter)
+            el = x.args[0].elt
+            if ns and isinstance(el, ast.Compare) and len(el.ops) == 1 and isinstance(el.ops[0], ast.In) and U(el.left) == U(g.target) \
+                    and is_flags(el.comparators[0]) and not g.ifs:
+                if x.func.id == "all":
+                    return set(ns), lambda a: all(n in a for n in ns)
+                return set(ns), lambda a: any(n in a for n in ns)
+        return None
+    return go(e)
+
+
+def _line_pred_of_kernel_expr(e, kernel):
+    """(kind, predicate) for an expression over the kernel: kind 'exists' (some line satisfies P) or 'count' (number of lines
+    satisfying P); None when not recognised."""
+    # F in [flag for instr in kernel for flag in instr.flags]
+    if isinstance(e, ast.Compare) and len(e.ops) == 1 and isinstance(e.ops[0], ast.In) and U(e.left).startswith("INSTR_FLAGS."):
+        c = e.comparators[0]
+        if isinstance(c, (ast.ListComp, ast.GeneratorExp, ast.SetComp)) and len(c.generators) == 2 and U(c.generators[0].iter) == kernel \
+                and U(c.generators[1].iter) == U(c.generators[0].target) + ".flags" and U(c.elt) == U(c.generators[1].target) \
+                and not c.generators[0].ifs and not c.generators[1].ifs:
+            n = U(e.left)
+            return "exists", ({n}, lambda a: n in a)
+    inner, kind = e, "exists"
+    if isinstance(e, ast.Call) and isinstance(e.func, ast.Name) and e.func.id == "len" and len(e.args) == 1:
+        inner, kind = e.args[0], "count"
+    if isinstance(inner, ast.Compare) and len(inner.ops) == 1 and isinstance(inner.ops[0], (ast.Gt, ast.NotEq)) and C.const_num(inner.comparators[0]) == 0:
+        r = _line_pred_of_kernel_expr(inner.left, kernel)
+        return ("exists", r[1]) if r and r[0] == "count" else None
+    if isinstance(inner, ast.Call) and isinstance(inner.func, ast.Name) and inner.func.id in ("any", "bool", "list") and len(inner.args) == 1:
+        if inner.func.id == "any" and isinstance(inner.args[0], (ast.GeneratorExp, ast.ListComp)):
+            g = inner.args[0]
+            if len(g.generators) == 1 and U(g.generators[0].iter) == kernel and not g.generators[0].ifs:
+                p = _flag_pred(g.elt, U(g.generators[0].target))
+                return ("exists", p) if p else None
+        else:
+            inner = inner.args[0]
+    if isinstance(inner, (ast.ListComp, ast.GeneratorExp)) and len(inner.generators) == 1 and U(inner.generators[0].iter) == kernel \
+            and len(inner.generators[0].ifs) >= 1:
+        g = inner.generators[0]
+        conds = [_flag_pred(c, U(g.target)) for c in g.ifs]
+        if any(c is None for c in conds):
+            return None
+        atoms = set().union(*[c[0] for c in conds])
+        fs = [c[1] for c in conds]
+        return kind, (atoms, lambda a: all(f(a) for f in fs))
+    return None
+
+
+def _through_helper(ctx, owner, e):
+    """`self.helper(args)` / `helper(args)` whose body ends in one `return <expr>`: that expression with the helper's own
+    locals substituted and its parameters replaced by the arguments; other expressions unchanged."""
+    if not (isinstance(e, ast.Call) and not e.keywords):
+        return e
+    name = e.func.attr if isinstance(e.func, ast.Attribute) and U(e.func.value) in ("self", "cls") else (
+        e.func.id if isinstance(e.func, ast.Name) else None)
+    if name is None:
+        return e
+    h = ctx.repo.funcs.get("%s.%s" % (owner.cls.name, name)) if owner.cls is not None and isinstance(e.func, ast.Attribute) else \
+        ctx.repo.funcs.get("%s.%s" % (owner.module.stem, name))
+    if h is None:
+        return e
+    rets = [n for n in ast.walk(h.node) if isinstance(n, ast.Return)]
+    if len(rets) != 1 or rets[0].value is None or rets[0] is not h.node.body[-1]:
+        return e
+    params = [p for p in h.params() if p not in ("self", "cls")]
+    if len(params) != len(e.args):
+        return e
+    val = C.flow_of(h).subst(rets[0].value)
+    amap = dict(zip(params, e.args))
+
+    class R(ast.NodeTransformer):
+        def visit_Name(self, n):
+            return amap[n.id] if n.id in amap and isinstance(n.ctx, ast.Load) else n
+    import copy
+    return R().visit(copy.deepcopy(val))
+
+
+def _pred_equal(p, q):
+    import itertools
+    atoms = sorted(p[0] | q[0])
+    for r in range(len(atoms) + 1):
+        for comb in itertools.combinations(atoms, r):
+            a = frozenset(comb)
+            if bool(p[1](a)) != bool(q[1](a)):
+                return False, a
+    return True, None
+
+
+def _r3_semantic(ctx, cv, br):
+    """Unknown-line predicates of trigger, count, X mark and dict warning compared as boolean functions of the flags.
+    Returns True when it could judge (then the textual rules are skipped)."""
+    kern = cv.params()[1]
+    flow = C.flow_of(cv)
+    fs = ctx.func("Frontend._get_flag_symbols")
+    marks = [b for n, b in pm.find("M_s += 'X' if M_c else ''", fs.node)]
+    if len(marks) != 1:
+        return False
+    mark = _flag_pred(marks[0]["M_c"], None)
+    if mark is None:
+        return False
+    parts = C.conj_parts(flow.subst(br.test)) if isinstance(br.test, ast.BoolOp) and isinstance(br.test.op, ast.And) else [flow.subst(br.test)]
+    ign = [p for p in parts if U(p) == "not " + cv.params()[4]]
+    rest = [p for p in parts if p not in ign]
+    if len(ign) != 1 or len(rest) != 1:
+        return False
+    trig = _line_pred_of_kernel_expr(_through_helper(ctx, cv, rest[0]), kern)
+    call = C.calls_to(br, "_missing_instruction_error")
+    cnt = _line_pred_of_kernel_expr(_through_helper(ctx, cv, flow.subst(call[0].args[0])), kern) if call and call[0].args else None
+    fd = ctx.func("Frontend.full_analysis_dict")
+    w = [n for n in ast.walk(fd.node) if isinstance(n, ast.If) and any("UnknownInstrWarning" in U(s) for s in n.body)]
+    dct = _line_pred_of_kernel_expr(_through_helper(ctx, fd, C.flow_of(fd).subst(w[0].test)), fd.params()[1]) if len(w) == 1 else None
+    if trig is None or cnt is None or dct is None or trig[0] != "exists" or cnt[0] != "count" or dct[0] != "exists":
+        return False
+
+    def name(a):
+        return "{%s}" % ", ".join(sorted(x.replace("INSTR_FLAGS.", "") for x in a)) if a else "no flag"
+    for what, p, fn, node in (("missing-data branch is taken iff some line carries the X mark's flag", trig[1], cv, br),
+                              ("the number in the warning counts the lines marked X", cnt[1], cv, call[0]),
+                              ("dict UnknownInstrWarning iff some line carries the X mark's flag", dct[1], fd, w[0])):
+        eq, a = _pred_equal(p, mark)
+        ctx.check(eq, "R3", what, fn.where(node),
+                  "%s: for a line whose flags are %s the X mark says %s but this test says %s - e.g. a memory form composed from a "
+                  "register form with `throughput: ~` (zen1 sqrtsd) carries TP_UNKWN without LT_UNKWN: it is marked X, yet %s"
+                  % (what, name(a), "missing" if a is not None and mark[1](a) else "present",
+                     "missing" if a is not None and p[1](a) else "present",
+                     "the warning does not count it / the totals are printed without --ignore-unknown") if not eq else "",
+                  fn.qname, "unknown-line predicate: " + what[:40])
+    return True
+
+
 def _r3(ctx):
     ctx.rule("R3", "unknown-instruction branch, its count and the X mark use the same flag; totals on the other branch")
     cv = ctx.func("Frontend.combined_view")
@@ -319,17 +500,18 @@ def _r3(ctx):
     if len(ifs) != 1:
         ctx.broken("R3: missing-data branch not found in combined_view")
     br = ifs[0]
+    semantic = _r3_semantic(ctx, cv, br)
     parts = [U(v) for v in br.test.values] if isinstance(br.test, ast.BoolOp) and isinstance(br.test.op, ast.And) else []
     trig = [p for p in parts if p.startswith("INSTR_FLAGS.") and " in [" in p]
     ok = ("not " + cv.params()[4]) in parts and len(trig) == 1 and len(parts) == 2
     flag = trig[0].split(" in ")[0] if trig else None
     trig_rec = len(trig) == 1
-    ctx.judge(ok and flag == "INSTR_FLAGS.TP_UNKWN", trig_rec, "R3", "trigger = not ignore_unknown and TP_UNKWN among the kernel's flags",
+    ctx.judge(semantic or (ok and flag == "INSTR_FLAGS.TP_UNKWN"), trig_rec, "R3", "trigger = not ignore_unknown and TP_UNKWN among the kernel's flags",
               cv.where(br), "the missing-data branch is not `not ignore_unknown and INSTR_FLAGS.TP_UNKWN in <all flags>` "
               "(test: %s)" % U(br.test)[:160], cv.qname, "unknown trigger")
     cnt = pm.find("M_n = len([M_i.flags for M_i in %s if M_f in M_i.flags])" % cv.params()[1], br)
     cnt_any = cnt or pm.find("M_n = len([M_e for M_i in %s if M_c])" % cv.params()[1], br)
-    ctx.judge(bool(cnt) and U(cnt[0][1]["M_f"]) == flag, bool(cnt_any) and trig_rec, "R3", "warning counts the lines carrying that flag", cv.where(br),
+    ctx.judge(semantic or (bool(cnt) and U(cnt[0][1]["M_f"]) == flag), bool(cnt_any) and trig_rec, "R3", "warning counts the lines carrying that flag", cv.where(br),
               "the number in the warning is not the count of lines with %s" % flag, cv.qname, "unknown count")
     if cnt:
         call = C.calls_to(br, "_missing_instruction_error")[0]
@@ -351,7 +533,7 @@ def _r3(ctx):
               cv.qname, "totals branch")
     fs = ctx.func("Frontend._get_flag_symbols")
     x = pm.find("M_s += 'X' if M_f in M_o else ''", fs.node)
-    ctx.judge(bool(x) and U(x[0][1]["M_f"]) == flag, bool(x) and trig_rec, "R3", "X marks lines carrying that flag", fs.where(),
+    ctx.judge(semantic or (bool(x) and U(x[0][1]["M_f"]) == flag), bool(x) and trig_rec, "R3", "X marks lines carrying that flag", fs.where(),
               "the X mark is keyed on %s, the branch on %s" % (U(x[0][1]["M_f"]) if x else None, flag), fs.qname, "X mark")
     # mark shown for instruction lines
     mk = [c for c in C.calls_to(cv.node, "_get_flag_symbols")]
@@ -371,7 +553,7 @@ def _r3(ctx):
     # dict: UnknownInstrWarning keyed on the same flag
     fd = ctx.func("Frontend.full_analysis_dict")
     w = [n for n in ast.walk(fd.node) if isinstance(n, ast.If) and any("UnknownInstrWarning" in U(s) for s in n.body)]
-    ctx.judge(bool(w) and U(w[0].test).startswith(str(flag) + " in "), bool(w) and trig_rec and " in " in U(w[0].test), "R3",
+    ctx.judge(semantic or (bool(w) and U(w[0].test).startswith(str(flag) + " in ")), bool(w) and trig_rec and " in " in U(w[0].test), "R3",
               "dict warning keyed on the same flag",
               fd.where(), "UnknownInstrWarning is not keyed on %s" % flag, fd.qname, "dict unknown warning")
 
